@@ -42,7 +42,7 @@ theorem layout_split (ps1 ps2 : List Piece) (gs : List Txt) (h : LayoutOk (ps1 +
 def CoveredOp (last fst : Bool) (o : OpA) : Prop :=
   ∃ t1 ps raw, opPieces o = (t1, 1) :: ps ∧
     (∀ gs, InnerOk ps gs →
-      if fst then GoodFirst last (t1 ++ joinInner ps gs) raw else GoodOp last false (t1 ++ joinInner ps gs) raw) ∧
+      if fst then GoodFirst last (t1 ++ joinInner ps gs) raw else GoodRest last (t1 ++ joinInner ps gs) raw) ∧
     processOperand raw = .ok (expectOp o)
 
 /-- every operand is covered at its position; only the last one may be of a kind that has to be last,
